@@ -29,7 +29,9 @@ from typing import Any
 from exabgp.bgp.message.open.capability.capabilities import Capabilities
 from exabgp.bgp.message.open.capability.capability import Capability
 from exabgp.bgp.message.open.routerid import RouterID
-from exabgp.bgp.message.update.attribute.aspath import SEQUENCE, SET, AS2Path
+from exabgp.bgp.message.update.attribute.aspath import CONFED_SEQUENCE, CONFED_SET, SEQUENCE, SET, AS2Path
+
+SEG_CLASS = {1: SET, 2: SEQUENCE, 3: CONFED_SEQUENCE, 4: CONFED_SET}
 from exabgp.bgp.message.open.asn import ASN
 from exabgp.bgp.message.update.collection import RoutedNLRI, UpdateCollection
 from exabgp.protocol.family import AFI, SAFI
@@ -365,6 +367,10 @@ def expected(req: dict, shape: dict, words: str) -> dict:
         path = req['obj_aspath']
     if path is None:
         path = [] if ibgp else [[2, [shape['las']]]]
+    if not (shape.get('asn4', 1) and shape.get('peer_asn4', 1)):
+        # a confederation member above 65535 has nothing to carry it on a 2-octet session (RFC 6793 3: no
+        # confederation segment in AS4_PATH): it arrives as AS_TRANS (Props/C01 `c01_confed_path`)
+        path = [[t, [23456 if t in (3, 4) and a > 65535 else a for a in asns]] for t, asns in path]
     attrs[2] = segs_word(chunk_segs(path))
     m = first_given(req, 'med')
     if m is not None:
@@ -473,7 +479,7 @@ def impl_encode(sess: Session, req: dict) -> tuple:
     route = routes[0]
     try:
         if req.get('obj_aspath') is not None:
-            segs = [(SEQUENCE if t == 2 else SET)([ASN(a) for a in asns]) for t, asns in req['obj_aspath']]
+            segs = [SEG_CLASS[t]([ASN(a) for a in asns]) for t, asns in req['obj_aspath']]
             route.attributes.add(AS2Path.make_aspath(segs, asn4=True))
         route = sess.n.resolve_self(route)
         msgs = [bytes(m) for m in UpdateCollection([RoutedNLRI(route.nlri, route.nexthop)], [], route.attributes).messages(sess.neg)]
@@ -517,7 +523,7 @@ def impl_encode_shared(sesss: list[Session], req: dict, order: list[int]) -> lis
         return ('refused', f'{len(routes)} routes')
     route = routes[0]
     if req.get('obj_aspath') is not None:
-        segs = [(SEQUENCE if t == 2 else SET)([ASN(a) for a in asns]) for t, asns in req['obj_aspath']]
+        segs = [SEG_CLASS[t]([ASN(a) for a in asns]) for t, asns in req['obj_aspath']]
         route.attributes.add(AS2Path.make_aspath(segs, asn4=True))
     saved = cfg.neighbors
     outs: list[tuple] = []
